@@ -33,6 +33,9 @@ CLAIMS = {
  'C10': dict(technique="runtime monitoring: differential against CPython - the same function object is executed natively and by CoHDL's tracer inside a context, results captured by a pyeval probe and compared structurally",
              text="Exploration: seeded signature x call-shape pairs (CPython's TypeError must be mirrored by a rejection) and seeded programs over closures, classes, operator fallbacks, containers and comprehensions.",
              ref="2 C10"),
+ 'C11': dict(technique="runtime monitoring: compilation histories replayed in fresh interpreters under several hash seeds; an offline checker compares the SHA-256 of every accepted output with the design's fresh-interpreter output",
+             text="Exploration: all (rejected, accepted) and ordered (accepted, accepted) pairs over a pool of 17+ accepted / 17 rejected designs failing at every compiler stage, repetitions, reserved-name leakage, random sequences, hash seeds.",
+             ref="2 C11"),
  'C13': dict(technique="runtime monitoring: fresh interpreter per creation order with post-hoc assertions on identity / issubclass / isinstance of the lazily created classes and on view write-through; nested views in emitted logic executed by vsim",
              text="Exploration: seeded creation orders (widths 1..40, arrays, 4 qualifiers, 3 directions) in fresh processes; random nested view chains as read sources and write targets of compiled entities.",
              ref="2 C13"),
